@@ -58,7 +58,47 @@ def _show(idmap, r):
     st = [x.start for x in r.geoshapes]
     if any(a > b for a, b in zip(st, st[1:])):
         out += ' !UNSORTED'
-    return out + U.stale(r)
+    return out + _views(r) + U.stale(r)
+
+
+def _views(r):
+    """len / iteration / truthiness / first / last / start / end all read the same member list"""
+    g = r.geoshapes
+    try:
+        ok = len(r) == len(g) and [id(x) for x in r] == [id(x) for x in g] and bool(r) == bool(g)
+        if g and hasattr(r, 'first'):
+            ok = ok and r.first is g[0] and r.last is g[-1] and r.start == g[0].start and r.end == g[-1].end
+    except Exception:  # noqa
+        ok = False
+    return '' if ok else ' !VIEWS'
+
+
+CALLER = ('arg', 'arg.append', 'arg.reverse', 'arg.sortdesc', 'arg.pop', 'arg.clear', 'sib.append')
+
+
+def _caller_step(sec, arg, idmap, keep):
+    """what the *caller* does with the list object it handed to the constructor (no operation on the track)"""
+    L = U.lib()
+    op, a = sec[0], sec[1:]
+    if op in ('arg.append', 'sib.append'):
+        toks = [U.Tok(t) for t in a]
+        shapes = [t.build() for t in toks]
+        keep.append(shapes)
+        idmap.update({id(s): t.id for s, t in zip(shapes, toks)})
+        if op == 'arg.append':
+            arg.extend(shapes)
+        else:
+            sib = L['Track'](arg)                 # a sibling built from the same list object, then tampered with
+            keep.append(sib)
+            sib.geoshapes.extend(shapes)
+    elif op == 'arg.reverse':
+        arg.reverse()
+    elif op == 'arg.sortdesc':
+        arg.sort(key=lambda x: x.start, reverse=True)
+    elif op == 'arg.pop':
+        arg.pop()
+    elif op == 'arg.clear':
+        arg.clear()
 
 
 def _time(us):
@@ -106,21 +146,31 @@ def impl(line):
     shapes = [t.build() for t in toks]
     idmap = {id(s): t.id for s, t in zip(shapes, toks)}
     keep = [shapes]
-    tr = L['Track'](list(shapes))              # time-less shape -> ValueError -> ERR:Value
+    arg = list(shapes)                         # the caller's list object
+    tr = L['Track'](arg)                       # time-less shape -> ValueError -> ERR:Value
+    # the constructor leaves the caller's list as it was and does not adopt it
+    aflag = ('' if [id(x) for x in arg] == [id(x) for x in shapes] else ' !ARG-CHANGED') + \
+        (' !ALIAS' if tr.geoshapes is arg else '')
     if op == 'mk':
-        return _show(idmap, tr)
+        return _show(idmap, tr) + aflag
     U.warm(tr)
     before = U.snapshot(tr)
     if op == 'hist':
         outs, cur = [_show(idmap, tr)], tr
+        touched = False
         for sec in secs[1:-1]:
             try:
+                if sec[0] in CALLER:
+                    _caller_step(sec, arg, idmap, keep)
+                    touched = True
+                    outs.append('A ' + _names(idmap, arg) if sec[0] == 'arg' else _show(idmap, cur))
+                    continue
                 U.warm(cur)
                 cur = _apply(cur, sec, idmap, keep)
                 outs.append(_show(idmap, cur))
             except Exception as e:  # noqa
                 outs.append(common.err_name(e))
-        return ' ; '.join(outs) + (' MUTATED' if before != U.snapshot(tr) else '')
+        return ' ; '.join(outs) + (' MUTATED' if before != U.snapshot(tr) else '') + ('' if touched else aflag)
     try:
         if op == 'hasdup':
             ans = tf(tr.has_duplicate_timestamps)
@@ -130,7 +180,7 @@ def impl(line):
     except Exception as e:  # noqa
         ans = common.err_name(e)
     out = f'{ans} # {_names(idmap, tr.geoshapes)}'
-    return out + (' MUTATED' if before != U.snapshot(tr) else '')
+    return out + (' MUTATED' if before != U.snapshot(tr) else '') + aflag
 
 
 # ---- the property, stated independently of the model ----------------------------------------------
@@ -272,8 +322,23 @@ def spec(line):
             return None
         dist = _dist(secs[-1])
         outs = [show_items(cur)]
+        arg = list(items)                      # the caller's list: the constructor neither reorders nor adopts it
         for sec in secs[1:-1]:
             try:
+                if sec[0] in CALLER:
+                    # nothing the caller does with its own list (or with a sibling track) is an operation on the track
+                    if sec[0] == 'arg.append':
+                        arg += [Item.of(t) for t in sec[1:]]
+                    elif sec[0] == 'arg.reverse':
+                        arg.reverse()
+                    elif sec[0] == 'arg.sortdesc':
+                        arg.sort(key=lambda x: x.start, reverse=True)
+                    elif sec[0] == 'arg.pop':
+                        arg.pop()
+                    elif sec[0] == 'arg.clear':
+                        arg.clear()
+                    outs.append('A ' + ' '.join(x.show() for x in arg) if sec[0] == 'arg' else show_items(cur))
+                    continue
                 cur = spec_step(cur, sec, dist)
                 outs.append(show_items(cur))
             except SpecError as e:
@@ -470,15 +535,46 @@ def history_line(rng, nt, hist, with_ftime):
     adds = [rand_track_specs(rng, rng.randrange(0, 4), nt, pool, p_none=rng.choice([0, 0, 0, 0.3])) for _ in range(nops)]
     allspecs = specs + [s for a in adds for s in a]
     toks, shapes = U.make_tokens(allspecs)
-    cur = L['Track'](list(shapes[:n0]))
+    arg = list(shapes[:n0])                    # the caller's list object
+    cur = L['Track'](arg)
     cens = {tuple(s.centroid.to_float()[:2]) for s in shapes}
     secs, pos = [], n0
+    narg, arg_timed = n0, True                 # what the caller's list holds, independently of the implementation
     ops = ['add', 'add', 'add', 'slice', 'slice', 'fdt_inst', 'fdt_ival', 'fdt_ival', 'fprop', 'fprop', 'convolve',
            'convolve', 'journeys', 'journeys', 'fdt_bad'] + (['ftime', 'ftime', 'ftime'] if with_ftime else [])
     for k in range(nops):
         op = rng.choice(ops)
         if type(cur).__name__ != 'Track' or any(x.dt is None for x in cur.geoshapes):
             break           # the implementation left the Track class: the line so far already shows it
+        if rng.random() < (0.45 if k < 3 else 0.1):
+            # the caller keeps using the list it built the (first) track from: late pings are appended, the buffer is
+            # re-ordered, a second track is built from it -- then the track is observed again
+            c = rng.choice(['arg.append', 'arg.append', 'arg.reverse', 'arg.pop', 'arg.clear', 'arg'] +
+                           (['arg.sortdesc', 'sib.append', 'sib.append'] if arg_timed else []))
+            m = len(adds[k])
+            sec = None
+            if c in ('arg.append', 'sib.append') and m:
+                sec = [c] + toks[pos:pos + m]
+                if c == 'arg.append':
+                    narg += m
+                    arg_timed = arg_timed and all(U.Tok(t).dt is not None for t in sec[1:])
+                pos += m
+                adds[k] = []
+            elif c == 'arg.pop' and narg:
+                sec, narg = [c], narg - 1
+            elif c == 'arg.clear':
+                sec, narg, arg_timed = [c], 0, True
+            elif c in ('arg.reverse', 'arg.sortdesc', 'arg'):
+                sec = [c]
+            if sec:
+                try:
+                    _caller_step(sec, arg, {}, [shapes])
+                except Exception:  # noqa
+                    pass
+                secs.append(sec)
+                secs.append(['arg'])
+                if any(x.dt is None for x in cur.geoshapes):
+                    break   # the track changed with the caller's list: the line so far already shows it
         ticks = sorted({U.us_of(d) for x in cur.geoshapes for d in (x.start, x.end)}) or [U.T(0)]
         try:
             if op == 'add':
